@@ -5,6 +5,7 @@
 # The scratch worktree /tmp/evalrepo and sandbox /tmp/evalsb are kept between calls for incremental builds;
 # `tools/seeded_eval.sh --clean` removes both.
 set -u
+exec 9>/tmp/evalrepo.lock; flock 9   # /tmp/evalrepo and /tmp/evalsb are shared: one user at a time
 V="$(cd "$(dirname "$0")/.." && pwd)"
 if [ "$1" = "--clean" ]; then
   git -C /repo worktree remove --force /tmp/evalrepo 2>/dev/null; rm -rf /tmp/evalrepo /tmp/evalsb; git -C /repo worktree prune; exit 0
